@@ -50,6 +50,16 @@ pub const SNIPPETS: &[&str] = &[
     "S6 C2 ::= { o3 }",
     "U7 ::= SEQUENCE { id C2.&id ({S6}), v C2.&Type-Field ({S6}{@id}) }",
     "U8 ::= SEQUENCE { id C1.&id ({}), val C1.&Type ({}{@id}) }",
+    "B9 ::= BIT STRING { reserved(-1), urgent(0), ack(1) }",
+    "vb9 B9 ::= { reserved, ack }",
+    "U10 ::= SEQUENCE { f B9 DEFAULT { reserved } }",
+    "B10 ::= BIT STRING { far(70000), near(0) }",
+    "vb10 B10 ::= { far }",
+    "F4 ::= IA5String (\"\" | \"a\"..\"a\")",
+    "F5 ::= IA5String (FROM (\"\" | \"a\"..\"a\") ^ SIZE (1..4))",
+    "E9 ::= ENUMERATED { a, ..., b(170141183460469231731687303715884105727), c }",
+    "E10 ::= ENUMERATED { a(170141183460469231731687303715884105727), b }",
+    "I9 ::= INTEGER { big(170141183460469231731687303715884105727) } (0..big)",
     "U9 ::= SEQUENCE { id C1.&id ({o1}), val C1.&Type ({o1 | o2}{@id}) }",
     "T1 ::= TIME",
     "T2 ::= REAL",
